@@ -105,6 +105,12 @@ def _ops():
 
 
 OPS = _ops()
+# many distinct failing pairs per (mode, very_readable): greys a little below 4.5 on white, queried in order and then again
+SAT_TEXTS = ["#%02x%02x%02x" % (v, v, v) for v in (0x79, 0x7b, 0x7d, 0x7f, 0x81, 0x83, 0x85, 0x87, 0x89, 0x8b, 0x8d, 0x8f)]
+for _m in (0, 1, 2):
+    for _vr in (False, True):
+        for _i, _t in enumerate(SAT_TEXTS):
+            OPS["sat:m%d/%s/%d" % (_m, "vr" if _vr else "aa", _i)] = ("mr", _t, B1, _m, False, _vr)
 QUICK_OPS = ["mr:T1/B1/m1", "mr:T1/B1/m1/vr", "mr:T1/B1/m1/large", "mr:T1/B1/m0", "mr:T1/B1/m2",
              "mr:far/m1", "mr:far/m1/vr", "mr:far/m1/large", "mr:far/m0",
              "mr:78/B1/m1", "mr:78/dark/m1", "mr:T2/B1/m0/vr", "mr:T1/B2/m1", "mr:T3/B1/m1", "ir:T1/B1",
@@ -492,7 +498,8 @@ def run(ctx):
         % (depth, len(ops), len(WORKLOADS), "" if q else " and <= 2 pre-emptions at loop granularity (one point per loop iteration + calls of core/CLI functions)")
     )
     # ---- references (fresh exec per operation) and hash seeds ----------------------------------------
-    all_ops = sorted(set(ops) | {n for w in WORKLOADS.values() for n in w} | {"cli:empty_dir", "cli:only_cm_files", "bulk:raises_midway"})
+    all_ops = sorted(set(ops) | {n for w in WORKLOADS.values() for n in w} | {"cli:empty_dir", "cli:only_cm_files", "bulk:raises_midway"}
+                     | {n for n in OPS if n.startswith("sat:") and (not q or n.startswith(("sat:m1/aa", "sat:m2/aa")))})
     refs = {}
     for name, _seed, ob in ctx.pmap(reference, [(n, None) for n in all_ops]):
         if ob[0] == "harness":
@@ -543,6 +550,12 @@ def run(ctx):
         for kk in (3, 8, 17):
             for pr in probes:
                 long_seqs.append([o] * kk + [pr, o])
+    # (c) saturation: 12 distinct failing pairs under one setting, then the same 12 again (size-limited caches, ring buffers)
+    sat_settings = [(1, "aa"), (2, "aa")] if q else [(m_, v_) for m_ in (0, 1, 2) for v_ in ("aa", "vr")]
+    for m_, v_ in sat_settings:
+        names_ = ["sat:m%d/%s/%d" % (m_, v_, i_) for i_ in range(len(SAT_TEXTS))]
+        long_seqs.append(names_ + names_)
+        long_seqs.append(names_ + list(reversed(names_)))
     seqs += long_seqs
     # longest first, interleaved so chunks are balanced
     seqs.sort(key=len, reverse=True)
